@@ -315,6 +315,53 @@ def main():
         L.append(f"/-- `{fn}`: a queue slot is reserved before the preamble task is spawned -/")
         L.append(f"abbrev {nm} : Bool := {'true' if first else 'false'}")
 
+    # ---- driver/mod.rs: can the worker loop park inside a select handler?
+    # `run_impl`'s `loop { tokio::select! { pat = fut => { body } ... } }`: a handler body runs to
+    # completion before the loop polls anything again, so an `.await` inside one (e.g. an awaited
+    # `send` on a bounded queue the application may leave full) stops every branch of the worker.
+    m = need(re.search(r"async fn run_impl\(&mut self\).*?tokio::select!\s*\{", s, re.S), f"{rel}: run_impl select loop")
+    i = m.end()
+    depth, j = 1, i
+    while j < len(s) and depth > 0:
+        depth += {"{": 1, "}": -1}.get(s[j], 0)
+        j += 1
+    if depth != 0:
+        raise Missing(f"{rel}: run_impl: unbalanced select block")
+    sel = s[i:j - 1]
+    bodies, k = [], 0
+    while True:
+        a = re.compile(r"=>\s*\{").search(sel, k)
+        if not a:
+            break
+        # only arms at depth 0 of the select block
+        pre = sel[:a.start()]
+        if pre.count("{") != pre.count("}"):
+            k = a.end()
+            continue
+        d, e = 1, a.end()
+        while e < len(sel) and d > 0:
+            d += {"{": 1, "}": -1}.get(sel[e], 0)
+            e += 1
+        bodies.append(sel[a.end():e - 1])
+        k = e
+    if len(bodies) < 5:
+        raise Missing(f"{rel}: run_impl: select arms not recognised ({len(bodies)})")
+    await_free = not any(re.search(r"\.await\b", re.sub(r"//[^\n]*", "", b)) for b in bodies)
+    ex["WORKER_SELECT_ARMS"] = len(bodies)
+    ex["WORKER_HANDLERS_AWAIT_FREE"] = await_free
+    L.append("/-- `run_impl`: no handler body of the worker's `select!` loop contains an `.await` -/")
+    L.append(f"abbrev WORKER_HANDLERS_AWAIT_FREE : Bool := {'true' if await_free else 'false'}")
+    # `accept_datagram`: is the queue slot held before a datagram is taken out of quinn?
+    m = need(re.search(r"async fn accept_datagram\((.*?)\n        \}\n", s, re.S), f"{rel}: fn accept_datagram")
+    body = m.group(1)
+    rd_at = body.find("read_datagram()")
+    if rd_at < 0:
+        raise Missing(f"{rel}: accept_datagram: read_datagram()")
+    slot_first = bool(re.search(r"\.reserve(_owned)?\(\)", body[:rd_at]))
+    ex["DGRAM_SLOT_BEFORE_READ"] = slot_first
+    L.append("/-- `accept_datagram`: the queue slot is reserved before the datagram is read from quinn -/")
+    L.append(f"abbrev DGRAM_SLOT_BEFORE_READ : Bool := {'true' if slot_first else 'false'}")
+
     # ---- driver/streams/mod.rs: does `QuicSendStream::finish` always wait for `stopped()`?
     rel2 = "wtransport/src/driver/streams/mod.rs"
     s2 = rd(repo, rel2)
